@@ -118,7 +118,9 @@ class MaxItemsConstraint(Constraint):
 
 
 def to_hashable(data: Any) -> Any:
-    if isinstance(data, list):
+    if isinstance(data, bool):
+        return bool, data  # True == 1 but they are different JSON values
+    elif isinstance(data, list):
         return tuple(map(to_hashable, data))
     elif isinstance(data, dict):
         # keys can be of mixed types when data doesn't come from JSON
